@@ -126,15 +126,15 @@ type image struct {
 }
 
 type hist struct {
-	r      *vf.Run
-	idx    int
-	root   string
-	d      *snapdrv.Driver
-	ops    []snapdrv.Op
-	images []*image
-	imgDir string
-	work   string
-	nops   int // number of generated operations (the final Close is pseudo-operation nops)
+	r        *vf.Run
+	idx      int
+	root     string
+	d        *snapdrv.Driver
+	ops      []snapdrv.Op
+	images   []*image
+	imgDir   string
+	work     string
+	nops     int // number of generated operations (the final Close is pseudo-operation nops)
 	diverged string
 }
 
@@ -463,6 +463,7 @@ func (h *hist) restartAll(im *image) {
 	if im.N%every == 2 && len(im.Live) > 0 {
 		h.restart(im, modeStrict, -1, true)
 		h.restart(im, modeAllow, 0, true)
+		h.restart(im, modeNoRest, -1, true)
 	}
 }
 
@@ -498,7 +499,9 @@ func (h *hist) restart(im *image, mode string, failK int, bind bool) (nMounts in
 	_ = os.WriteFile(filepath.Join(r.Scratch, "journal.txt"), []byte(desc+"\n"), 0o644)
 	replay := map[string]any{"history": h.idx, "script": snapdrv.Script(h.ops), "image": im.N, "crash_point": im.Point, "in_flight_op_index": im.OpIndex,
 		"in_flight_op": fmt.Sprint(op), "derived_torn_state": im.Derived, "mode": mode, "fail_kth_mount": failK, "bind": bind, "async": im.Async}
-	violate := func(key, what string) { r.Violate(key+"@"+pointClass, fmt.Sprintf("[%s, crash at %s during %s] %s", mode, im.Point, inflight, what), replay) }
+	violate := func(key, what string) {
+		r.Violate(key+"@"+pointClass, fmt.Sprintf("[%s, crash at %s during %s] %s", mode, im.Point, inflight, what), replay)
+	}
 
 	W := filepath.Join(h.work, "w", fmt.Sprintf("%d-%s-%d-%v", im.N, mode, failK, bind))
 	if err := os.MkdirAll(W, 0o700); err != nil {
@@ -514,6 +517,7 @@ func (h *hist) restart(im *image, mode string, failK int, bind bool) (nMounts in
 		return 0
 	}
 	rew := func(mp string) string { return W + strings.TrimPrefix(mp, h.root) }
+	planted := map[string]bool{} // bind variant: real kernel mounts in place when the new process starts
 	var fs *recfs.FS
 	if bind {
 		var err error
@@ -529,6 +533,7 @@ func (h *hist) restart(im *image, mode string, failK int, bind bool) (nMounts in
 			if st, err := os.Lstat(t); err == nil && st.IsDir() {
 				if err := syscall.Mount(filepath.Join(W, "bindsrc"), t, "", syscall.MS_BIND, ""); err == nil {
 					left++
+					planted[t] = true
 				}
 			}
 		}
@@ -743,6 +748,33 @@ func (h *hist) restart(im *image, mode string, failK int, bind bool) (nMounts in
 				}
 			}
 		}
+	}
+	if mode == modeNoRest && bind {
+		// NoRestore is the configuration in which the filesystem (FUSE manager) outlives the
+		// snapshotter process: the mounts that are in place when the new process starts are the
+		// live ones, nobody will make them again. Every committed remote snapshot that was
+		// mounted at the crash instant must still be mounted, exactly once, after the restart.
+		km, _ := recfs.KernelMounts(W)
+		cnt := map[string]int{}
+		for _, m := range km {
+			cnt[m]++
+		}
+		kept := 0
+		for mp := range want {
+			if !planted[mp] {
+				continue
+			}
+			if cnt[mp] != 1 {
+				violate("restart:no-restore-live-mount-gone", fmt.Sprintf("NoRestore: committed remote snapshot directory %s was mounted (by the surviving filesystem) when the new process started and has %d kernel mounts after the restart; nothing re-mounts it", stripPaths(mp, W), cnt[mp]))
+			} else {
+				kept++
+			}
+		}
+		r.Count("no_restore_live_mounts_kept", kept)
+		if kept > 0 {
+			r.NonTrivial(desc)
+		}
+		return nMounts // everything else of this image was judged in the no-restore restart without real mounts
 	}
 	// --- markers in ordinary snapshots' upper directories
 	markers := func(when string) {
